@@ -562,6 +562,49 @@ def c16_json_roundtrip(tier, seed):
                 r["_seen"].add((text, a))
                 if b.constant != a:
                     _viol(r, "c16.meaning-changed", {"model": text, "json": js, "env": env}, before=a, after=str(b))
+    # explicit ids in every position and form: given as str or as puan.variable, ids that look like generated ones, on
+    # nodes that are negated inside Imply / Not / XNor, nested
+    import puan
+
+    def ids_in(js_):
+        out = []
+        if isinstance(js_, dict):
+            if "id" in js_:
+                out.append(js_["id"])
+            for v in js_.values():
+                out += ids_in(v)
+        elif isinstance(js_, list):
+            for v in js_:
+                out += ids_in(v)
+        return out
+    for ident in ("K", "VARIANT_1", "VAR", "VAR_x", "var2", "VAR" + "a" * 64):
+        for how in ("str", "variable"):
+            vv = (lambda i: i) if how == "str" else (lambda i: puan.variable(i))
+            shapes = [
+                lambda: pg.Imply(pg.All("a", puan.variable("n", (-1, 2)), variable=vv(ident)), "b", variable="TOP"),
+                lambda: pg.All(pg.Not(pg.Any("a", "b", variable=vv(ident))), "c", variable="TOP"),
+                lambda: pg.XNor(pg.All("a", "b", variable=vv(ident)), "c", variable="TOP"),
+                lambda: pg.Imply("a", pg.Xor("b", "c", variable=vv(ident)), variable="TOP"),
+                lambda: pg.All(pg.Imply(pg.AtMost(1, ["a", "b"], variable=vv(ident)), "c", variable="I"), "d", variable="TOP"),
+                lambda: pg.Any("a", "b", variable=vv(ident)),
+            ]
+            for mk in shapes:
+                try:
+                    m = mk()
+                except Exception:
+                    continue
+                if m.errors() != []:
+                    continue
+                js = json.loads(json.dumps(m.to_json()))
+                back = pg.from_json(js)
+                r["evaluations"] += 1
+                r["_seen"].add(("explicit-id", how, ident[:4]))
+                if ident not in ids_in(js) or ident not in [x.id for x in ([back] if is_var(back) else back.flatten())]:
+                    _viol(r, "c16.explicit-id-lost", {"model": m.to_text(), "json": js, "id": ident, "given_as": how})
+                for env in assignments(leaves_of(m), None, 32):
+                    if pg.from_json(json.loads(json.dumps(js))).evaluate(dict(env)).constant != ref_truth(m, env):
+                        _viol(r, "c16.meaning-changed", {"model": m.to_text(), "json": js, "env": env})
+                        break
     return _finish(r)
 
 
